@@ -34,11 +34,12 @@ Mismatch(c) ==
 Distinguishing(c) ==
     LET B == BaseOf(c.b)
         P == Part(B, WS)
-    IN  {<<name, qi>> \in {"lexAllPairs", "lexLeq", "wNoTie", "wAnyTie"} \X QsOf(c) :
+    IN  {<<name, qi>> \in {"lexAllPairs", "lexLeq", "lexAllMcsF", "wNoTie", "wAnyTie"} \X QsOf(c) :
             /\ P.inf = {}
             /\ LET q == CondOf(qi)
                IN  CASE name = "lexAllPairs" -> AlgoLexAllPairs(B, q, WS, FALSE) # SysLexP(B, P, q, WS, FALSE)
                      [] name = "lexLeq"      -> AlgoLexLeq(B, q, WS, FALSE) # SysLexP(B, P, q, WS, FALSE)
+                     [] name = "lexAllMcsF"  -> AlgoLexAllMcsF(B, q, WS, FALSE) # SysLexP(B, P, q, WS, FALSE)
                      [] name = "wNoTie"      -> AlgoWNoTie(B, q, WS, FALSE) # SysWP(B, P, q, WS, FALSE)
                      [] name = "wAnyTie"     -> AlgoWAnyTie(B, q, WS, FALSE) # SysWP(B, P, q, WS, FALSE)}
 
